@@ -54,7 +54,8 @@ PLAN = {
             ["C11"], "a fetch whose rule set holds both matching and non-matching (or removed, or failing) rules"),
     "C13": ([("memo13", 800, ["-variants", ALLV]), ("memo13", 200, ["-calls", "2", "-mode", "mixed"])],
             ["C13"], "a later cycle started while the working memory held the value of the counted method atom shared by the rules (so it is consulted again)"),
-    "C14": ([("patterne", 2, []), ("fault", 800, ["-flagp", "0.5", "-variants", ALLV]), ("fault", 200, ["-mode", "mixed", "-flagp", "0.5"])],
+    "C14": ([("patterne", 2, []), ("fault", 800, ["-flagp", "0.5", "-variants", ALLV]), ("fault", 200, ["-mode", "mixed", "-flagp", "0.5"]),
+             ("fault", 300, ["-calls", "3", "-flagp", "0.2", "-variants", "fresh,second,json"])],
             ["C14", "C14a"], "a condition evaluation or an action failed (nil pointer, index or key out of range, % 0, panicking method)"),
     "C15": ([("core", 25, ["-cancel", "-maxcycle", "4"]), ("memo", 20, ["-cancel", "-maxcycle", "4"]),
              ("control", 20, ["-cancel", "-maxcycle", "4"]), ("fault", 10, ["-cancel", "-maxcycle", "3", "-flagp", "0.5"])],
